@@ -205,15 +205,30 @@ func verifC01Session(m *mon.M, i int, big bool) {
 			if r.Chance(1, 4) || (op == 0 && r.Chance(1, 3)) {
 				// Set Chunk Size announced by the writer of this direction
 				v := verifGenChunkSize(r)
-				pkt := NewSetChunkSize()
-				pkt.ChunkSize = v
-				if err := d.w.WritePacket(pkt, 0); err != nil {
-					m.Violationf("c01:write-error", rep, "WritePacket(SetChunkSize %d): %v", v, err)
-					return false
-				}
 				b := make([]byte, 4)
 				binary.BigEndian.PutUint32(b, v)
-				d.pending = append(d.pending, verifMsg{Type: 1, StreamID: 0, Timestamp: 0, Cid: 2, Payload: b})
+				scsCid := uint32(2)
+				if r.Chance(1, 3) {
+					// the announcement as a relay or a hand-written sender makes it: a type-1 message through WriteMessage, on the
+					// control chunk stream or another one, its body the 4 bytes or a few more (the size is the first four)
+					b = append(b, r.Bytes(r.Pick(0, 0, 1, 4))...)
+					if r.Bool() {
+						scsCid = uint32(r.Range(3, 63))
+					}
+					if err := d.w.WriteMessage(verifToLib(verifMsg{Type: 1, Cid: scsCid, Payload: b})); err != nil {
+						m.Violationf("c01:write-error", rep, "WriteMessage(Set Chunk Size %d, %d-byte body, cid %d): %v", v, len(b), scsCid, err)
+						return false
+					}
+					m.Count("set_chunk_size_through_WriteMessage", 1)
+				} else {
+					pkt := NewSetChunkSize()
+					pkt.ChunkSize = v
+					if err := d.w.WritePacket(pkt, 0); err != nil {
+						m.Violationf("c01:write-error", rep, "WritePacket(SetChunkSize %d): %v", v, err)
+						return false
+					}
+				}
+				d.pending = append(d.pending, verifMsg{Type: 1, StreamID: 0, Timestamp: 0, Cid: scsCid, Payload: b})
 				trace = append(trace, fmt.Sprintf("d%d:SCS(%d)", di, v))
 				d.chunk = v
 				m.Count("set_chunk_size_announced", 1)
